@@ -5,8 +5,8 @@ From Coq Require Import Lia.
 From RV.Model Require Import Base Word Limbs Bytes DivRecip DivSmall Redc.
 From RV.Model Require DivRef DivKnuth Shift.
 From RV.Gen Require Import Prim Scalar.
-From RV.Model Require Add Mul UDiv Conv Bits Pow Modular GcdMatrix.
-From RV.Proofs Require Import BaseFacts PfGenScalar PfGenAdd PfGenMul PfGenDiv PfGenSpecial PfGenCtor PfGenBits PfGenDivRef PfGenLimbs PfGenRedc PfGenKnuth PfGenShift PfGenPow PfGenModular PfGenMatrix.
+From RV.Model Require Add Mul UDiv Conv Bits Pow Modular GcdMatrix Gcd.
+From RV.Proofs Require Import BaseFacts PfGenScalar PfGenAdd PfGenMul PfGenDiv PfGenSpecial PfGenCtor PfGenBits PfGenDivRef PfGenLimbs PfGenRedc PfGenKnuth PfGenShift PfGenPow PfGenModular PfGenMatrix PfGenGcd.
 
 Theorem GenTie_source_equals_model :
   (forall bits, 0 <= bits -> bits + 63 < B -> g_nlimbs bits = Val (nlimbs bits)) /\
@@ -454,6 +454,23 @@ Theorem GenTie_matrix_u128 : forall r0 r1,
 Proof. exact g_mat_from_u128_prefix_eq. Qed.
 Print Assumptions GenTie_matrix_u128.
 
+(* Matrix::apply, Matrix::from on Uint operands (Uint::from(u64) and try_into::<u64|u128>() are the
+   conversions of Model/Conv.v on both sides), and the Lehmer loops of src/algorithms/gcd/mod.rs:
+   `while b != ZERO` runs with the round bound 2*BITS + 2 of the translator's table *)
+Theorem GenTie_gcd_rs : forall bits m a b,
+  0 <= bits -> bits + 7 < B -> 64 * nlimbs bits < B -> words_mat m -> canon bits a -> canon bits b ->
+  g_mat_apply bits (nlimbs bits) (mat_tuple m) a b = GcdMatrix.apply bits m a b /\
+  g_mat_from bits (nlimbs bits) a b = omap mat_tuple (GcdMatrix.from bits a b) /\
+  g_alg_gcd bits (nlimbs bits) a b = Gcd.gcd bits a b /\
+  g_alg_inv_mod bits (nlimbs bits) a b = Gcd.inv_mod bits a b.
+Proof.
+  intros bits m a b H0 HbB HB Wm Ca Cb.
+  exact (conj (g_mat_apply_eq bits H0 ltac:(pose proof (nlimbs_nonneg bits H0); lia) m a b Wm Ca Cb)
+        (conj (g_mat_from_eq bits a b H0 HbB HB Ca Cb)
+        (conj (g_alg_gcd_eq bits H0 HbB HB a b Ca Cb) (g_alg_inv_mod_eq bits H0 HbB HB a b Ca Cb)))).
+Qed.
+Print Assumptions GenTie_gcd_rs.
+
 (* the premises are satisfiable and the generated code computes: reciprocal(2^63) = 2^64 - 1 *)
 Example GenTie_nonvacuous :
   g_reciprocal_mg10 (2 ^ 63) = Val (2 ^ 64 - 1) /\ g_mask 65 = Val 1 /\ g_nlimbs 65 = Val 2 /\
@@ -476,6 +493,8 @@ Example GenTie_nonvacuous :
   g_bitxor 65 2 [5; 1] [3; 1] = Val [6; 0] /\
   g_leading_zeros 65 2 [5; 0] = Val 62 /\
   g_mat_from_u64 240 46 = Val (9, 47, 23, 120, false) /\
+  g_alg_gcd 65 2 [0; 1] [2 ^ 63 + 2 ^ 62; 0] = Val [2 ^ 62; 0] /\
+  g_alg_inv_mod 65 2 [3; 0] [13; 1] = Val (Some [6148914691236517210; 0]) /\
   g_mat_from_u64_prefix (2 ^ 63 + 12345) (2 ^ 62 + 999) = Val (0, 1, 1, 2, false) /\
   g_mat_from_u64_prefix (2 ^ 63 + 12345) 5700357408780482764 = Val (1009150, 1632839, 1536909, 2486771, false) /\
   g_mat_compose (1, 2, 3, 4, true) (5, 6, 7, 8, false) = Val (19, 22, 43, 50, false) /\
